@@ -129,8 +129,10 @@ class RecvImpl(base.Impl):
     def ports_line(self) -> str:
         sm = self.sm
         open_ = ",".join(str(p) for p in sorted(set(int(p) for p in sm.get_open_ports())))
-        chk = sorted({f"{int(o.port)}/{o.protocol}={1 if sm.check_port_is_open(port=o.port, protocol=o.protocol) else 0}"
-                      for o in sm.software.values()})
+        # every port some installed software carries x every protocol some installed software carries (not only the own pairs)
+        protos = sorted({o.protocol for o in sm.software.values()})
+        chk = sorted({f"{int(o.port)}/{pr}={1 if sm.check_port_is_open(port=o.port, protocol=pr) else 0}"
+                      for o in sm.software.values() for pr in protos})
         return f"OPEN[{open_}] CHECK[{','.join(chk)}]"
 
 
